@@ -1,0 +1,12 @@
+//go:build verif
+// +build verif
+
+package sequence
+
+// VerifState exposes the cached block of a MySQLSequence (next value and end
+// of the block) to the verification harness.
+func (s *MySQLSequence) VerifState() (curr, max int64) {
+	s.lock.Lock()
+	defer s.lock.Unlock()
+	return s.curr, s.max
+}
